@@ -61,6 +61,10 @@ fn scripts(quick: bool) -> Vec<(Vec<(usize, Step)>, usize)> {
             }
         }
     }
+    // set / sync / set from ONE remote (per-remote order is preserved) while a second remote only
+    // observes: the sync is served with a change still pending inside the lane
+    out.push((vec![(1, link("v")), (0, link("v")), (0, cmd("v", "31")), (0, sync("v")), (0, cmd("v", "32"))], 2));
+    out.push((vec![(1, link("v")), (0, cmd("v", "33")), (0, sync("v")), (0, setv(&[34])), (0, sync("v")), (0, cmd("v", "35"))], 2));
     // three remotes: observer, syncer, writer
     out.push((sequential(&[observer.clone(), syncer.clone(), writer.clone()]), 3));
     out.push((sequential(&[writer.clone(), observer.clone(), syncer.clone()]), 3));
